@@ -36,7 +36,8 @@ def shards(tier, seed):
 
 def floors(tier):
     f = {"compiles:noisy": 1500, "class:A": 150, "class:B": 60, "class:C": 40, "switch:zero_strength": 60, "switch:empty_map": 60,
-         "switch:off": 60, "attach:direct": 150, "attach:map": 150, "fidelity:checked": 500, "loss:events": 200, "attach:wrapper_level_noise_object": 40}
+         "switch:off": 60, "attach:direct": 150, "attach:map": 150, "fidelity:checked": 500, "loss:events": 200, "attach:wrapper_level_noise_object": 40, "attach:solver_map": 60,
+         "solver_map:e_and_p_entries_differ_for_a_gate_type": 20, "solver_map:wrapper_level_key": 8}
     for model in ("depol", "pauli", "loss"):
         for place in ("before", "after"):
             for backend in ("dm", "mixture"):
@@ -190,7 +191,10 @@ def noise_from_map(prog, oplist, mp):
         if op.kind in ONEQ:
             op.noise = mp[op.q[0][0]].get(CLS[op.kind])
         elif op.kind == "W":
-            op.noise = [mp[op.q[0][0]].get(CLS[g]) for g in op.gates]
+            if "OneQubitGateWrapper" in mp[op.q[0][0]]:
+                op.noise = ("single", mp[op.q[0][0]]["OneQubitGateWrapper"])      # one noise object for the whole wrapper
+            else:
+                op.noise = [mp[op.q[0][0]].get(CLS[g]) for g in op.gates]
         elif op.kind in ("CNOT", "CZ"):
             v = mp[op.q[0][0] + op.q[1][0]].get(CLS[op.kind])
             op.noise = None if v is None else (v if isinstance(v, list) else [v, v])
@@ -304,12 +308,17 @@ def run_shard(spec, ctx):
     mon.install()
     for i in range(spec["count"]):
         check_case([spec["seed"], 6, spec["shard"], i], ctx, m, mon)
+        if i % 5 == 0:
+            check_solver_case([spec["seed"], 66, spec["shard"], i], ctx, m, mon)
 
 
 def replay(case, ctx):
     m = gq.mods()
     mon = CompileMonitor(None, snapshots=False, snap_before=True)
     mon.install()
+    if "solver_pseed" in case:
+        check_solver_case(case["solver_pseed"], ctx, m, mon)
+        return
     check_case(case["pseed"], ctx, m, mon)
 
 
@@ -356,6 +365,11 @@ def check_case(pseed, ctx, m, mon):
             ctx.case((tuple(prog.text()), "assign"), True)
             ctx.violation("assign_noise_changed_the_circuit", {"pseed": pseed}, {"problem": _exc(e), "program": prog.text()}, key="assign_changed")
             return
+    judge_case(ctx, m, mon, rng, prog, oplist, circ, klass, how, switch, det, {"pseed": pseed})
+
+
+def judge_case(ctx, m, mon, rng, prog, oplist, circ, klass, how, switch, det, case0):
+    from graphiq.metrics import Infidelity
     expect_noiseless = switch in ("zero_strength", "empty_map", "off")
     def flat(N):
         if isinstance(N, tuple) and N and N[0] == "single":
@@ -363,7 +377,7 @@ def check_case(pseed, ctx, m, mon):
         return N if isinstance(N, list) else [N]
     nontrivial = any(is_nontrivial(x) for op in oplist for x in flat(getattr(op, "noise", None)))
     desc = [o.text() + ("" if getattr(o, "noise", None) is None else "  ~" + repr(o.noise)) for o in oplist]
-    case = {"pseed": pseed, "class": klass, "attach": how, "switch": switch, "setting": det, "program": desc, "registers": [prog.n_e, prog.n_p, prog.n_c]}
+    case = {**case0, "class": klass, "attach": how, "switch": switch, "setting": det, "program": desc, "registers": [prog.n_e, prog.n_p, prog.n_c]}
     ctx.count("class:" + klass)
     ctx.count("attach:" + how)
     if switch != "noisy":
@@ -480,6 +494,90 @@ def check_case(pseed, ctx, m, mon):
                               key="measurement-on-noisy-state")
         except Exception as e:
             ctx.count("classC:compare_raised:" + type(e).__name__)
+
+
+def _flat(N):
+    if isinstance(N, tuple) and N and N[0] == "single":
+        return [N[1]]
+    return N if isinstance(N, list) else [N]
+
+
+def check_solver_case(pseed, ctx, m, mon):
+    """a circuit built by the deterministic solver from a noise map: the noise each operation carries must be what the map says
+    for its register type(s) and gate type(s) - judged through the same compile-and-compare as every other case, with the
+    specification's noise derived from the map by the harness"""
+    from graphiq.solvers.time_reversed_solver import TimeReversedSolver
+    from graphiq.metrics import Infidelity
+    from ..ref import graphs
+    rng = np.random.default_rng(pseed)
+    n = int(rng.integers(2, 5))
+    A = graphs.random_connected_graph(rng, n, [0.3, 0.6, 1.0][int(rng.integers(3))])
+    mp = {"e": {}, "p": {}, "ee": {}, "ep": {}}
+    gate_types = ("Hadamard", "Phase", "PhaseDagger", "SigmaX", "SigmaY", "SigmaZ", "Identity")
+    def pick():
+        N = rand_noise(rng, allow_none=False)
+        if N[0] == "depol" and rng.random() < 0.7:
+            N = ("pauli", "XYZ"[int(rng.integers(3))], N[2])
+        return N
+    for g in gate_types:
+        for t in ("e", "p"):
+            if rng.random() < 0.5:
+                mp[t][g] = pick()
+    for t in ("e", "p"):
+        if rng.random() < 0.15:
+            mp[t]["OneQubitGateWrapper"] = pick()
+            ctx.count("solver_map:wrapper_level_key")
+    for t in ("ee", "ep"):
+        if rng.random() < 0.5:
+            mp[t]["CNOT"] = pick()
+    det = int(rng.integers(2))
+    n_depol = lambda ol: sum(1 for o in ol for x in _flat(getattr(o, "noise", None)) if x is not None and x[0] == "depol" and x[1] > 0)
+    try:
+        X, Z, K = graphs.graph_stabilizers(A)
+        tgt = gq.ptab_to_clifford(pauli.PTab(X, Z, K), rng)
+        # the gates of the deterministic solver's circuit do not depend on the noise map: a dry run tells how many depolarizing
+        # events the map would cause (each multiplies the number of mixture branches by four); above three, depolarizing entries
+        # are turned into Pauli errors until the circuit is affordable - the attachment mechanism does not look at the model type
+        target = m["QuantumState"](tgt.copy(), rep_type="s")
+        comp = m["StabilizerCompiler"]()
+        comp.measurement_determinism = det
+        dry = TimeReversedSolver(target=target, metric=Infidelity(target=target), compiler=comp)
+        dry.solve()
+        mon.pop_runs()
+        prog0 = programs.program_from_circuit(dry.result[1])
+        while True:
+            noise_from_map(prog0, list(prog0.ops), mp)
+            if n_depol(list(prog0.ops)) <= 3:
+                break
+            keys = [(t, g) for t, d in mp.items() for g, v in d.items() if v[0] == "depol" and v[1] > 0]
+            t, g = keys[int(rng.integers(len(keys)))]
+            mp[t][g] = ("pauli", "XYZ"[int(rng.integers(3))], mp[t][g][2])
+    except Exception as e:
+        ctx.case(("solver", A.tobytes(), repr(mp)), True)
+        ctx.violation("solver_raises", {"solver_pseed": pseed}, {"exception": _exc(e), "noise_map": None}, key="solver_dry_exc:" + type(e).__name__)
+        return
+    if any(g in mp["e"] and g in mp["p"] and mp["e"][g] != mp["p"][g] for g in gate_types):
+        ctx.count("solver_map:e_and_p_entries_differ_for_a_gate_type")
+    case0 = {"solver_pseed": pseed, "target_adjacency": A.tolist(), "noise_map": {t: {g: repr(v) for g, v in d.items()} for t, d in mp.items()}}
+    try:
+        target = m["QuantumState"](tgt.copy(), rep_type="s")
+        comp = m["StabilizerCompiler"]()
+        comp.measurement_determinism = det
+        solver = TimeReversedSolver(target=target, metric=Infidelity(target=target), compiler=comp, noise_model_mapping=gq_map(mp))
+        solver.solve()
+        circ = solver.result[1]
+        mon.pop_runs()
+        prog = programs.program_from_circuit(circ)
+    except Exception as e:
+        ctx.case(("solver", A.tobytes(), repr(mp)), True)
+        ctx.violation("solver_with_noise_map_raises", case0, {"exception": _exc(e)}, key="solver_map_exc:" + type(e).__name__)
+        return
+    oplist = list(prog.ops)
+    noise_from_map(prog, oplist, mp)
+    if n_depol(oplist) > 3:
+        ctx.violation("solver_circuit_depends_on_the_noise_map", case0, {"depolarizing_events": n_depol(oplist)}, key="solver_map_shape")
+        return
+    judge_case(ctx, m, mon, rng, prog, oplist, circ, "S", "solver_map", "noisy", det, case0)
 
 
 def reattach(prog, oplist, circ):
